@@ -19,6 +19,7 @@ fn dispatch(kind: &str, case: &Value, dir: &Path) -> Value {
     match kind {
         "c08" => crate::props::c08::worker_case(case, dir),
         "c18" => crate::props::c18::worker_case(case, dir),
+        "c13" => crate::props::c13::worker_case(case, dir),
         _ => json!({"machinery_error": format!("unknown worker kind {kind}")}),
     }
 }
